@@ -98,6 +98,36 @@ theorem complete_done_eq (s : State) (f : Nat) (o : St) (ho : o ≠ .pending) (h
   | result v => simp [complete, setOutcome, hp]
   | exc e => simp [complete, setOutcome, hp]
 
+theorem setOutcome_pending_aio (s : State) (f : Nat) (o : St) (hp : (s.heap f).st = .pending)
+    (hk : (s.heap f).kind = .aio) :
+    setOutcome s f o = ({ s with
+      heap := fun x => if x = f then { kind := .aio, st := o, cbs := [] } else s.heap x,
+      ready := s.ready ++ (s.heap f).cbs.map (fun cb => Ready.call cb f),
+      sets := f :: s.sets }, true) := by
+  simp [setOutcome, fire, hp, hk, State.setCell]; funext x; by_cases hx : x = f <;> simp [hx]
+
+theorem cancelFut_pending_aio (s : State) (f : Nat) (hp : (s.heap f).st = .pending) (hk : (s.heap f).kind = .aio) :
+    cancelFut s f = { s with
+      heap := fun x => if x = f then { kind := .aio, st := .cancelled, cbs := [] } else s.heap x,
+      ready := s.ready ++ (s.heap f).cbs.map (fun cb => Ready.call cb f),
+      sets := f :: s.sets } := by
+  simp [cancelFut, fire, hp, hk, State.setCell]; funext x; by_cases hx : x = f <;> simp [hx]
+
+theorem setOutcome_pending_kiwi (s : State) (f : Nat) (o : St) (hp : (s.heap f).st = .pending)
+    (hk : (s.heap f).kind = .kiwi) :
+    setOutcome s f o = ({ s with
+      heap := fun x => if x = f then { kind := .kiwi, st := o, cbs := [] } else s.heap x,
+      stack := (s.heap f).cbs.map (fun cb => (cb, f)) ++ s.stack,
+      sets := f :: s.sets }, true) := by
+  simp [setOutcome, fire, hp, hk, State.setCell]; funext x; by_cases hx : x = f <;> simp [hx]
+
+theorem cancelFut_pending_kiwi (s : State) (f : Nat) (hp : (s.heap f).st = .pending) (hk : (s.heap f).kind = .kiwi) :
+    cancelFut s f = { s with
+      heap := fun x => if x = f then { kind := .kiwi, st := .cancelled, cbs := [] } else s.heap x,
+      stack := (s.heap f).cbs.map (fun cb => (cb, f)) ++ s.stack,
+      sets := f :: s.sets } := by
+  simp [cancelFut, fire, hp, hk, State.setCell]; funext x; by_cases hx : x = f <;> simp [hx]
+
 /-! ## A future that is done never changes (every operation of the model) -/
 
 /-- allocation only grows and a future that is done keeps its state -/
